@@ -16,7 +16,13 @@ SMAT = (L("u", "+"), L("s", "-"))  # supercell matrix:  cell_s.T = cell_u.T @ S
 PMAT = (L("s", "+"), L("p", "-"))  # primitive matrix:  cell_p.T = cell_s.T @ M
 
 CELL_SIG = {"kw": {"cell": (L("*", "-"), C), "scaled_positions": (A, L("*", "+")), "positions": (A, C)}}
-SIGS = {"PhonopyAtoms": CELL_SIG, "__init__": CELL_SIG, "get_reduced_bases": {"ret": (L("r", "-"), C)}}
+SIGS = {
+    "PhonopyAtoms": CELL_SIG,
+    "__init__": CELL_SIG,
+    "get_reduced_bases": {"ret": (L("r", "-"), C)},
+    # get_smallest_vectors(supercell_bases, supercell_pos, primitive_pos): vectors in supercell coordinates, multiplicities
+    "get_smallest_vectors": {"pos": [(L("s", "-"), C), (A, L("s", "+")), (A, L("s", "+"))], "ret_tuple": [(U, L("s", "+")), None]},
+}
 
 # (file, qualname, seeds, parameter types)
 SCOPE = [
@@ -24,7 +30,7 @@ SCOPE = [
     (CELLS, "Supercell._create_supercell", {"self._supercell_matrix": SMAT}, {}),
     (CELLS, "Primitive._map_atomic_indices", {"self._primitive_matrix": PMAT}, {"s_pos_orig": (A, L("s", "+"))}),
     (CELLS, "Primitive._get_atomic_permutations", {}, {}),
-    (CELLS, "Primitive._get_smallest_vectors", {"self._primitive_matrix": PMAT}, {}),
+    (CELLS, "Primitive._get_smallest_vectors", {"self._primitive_matrix": PMAT, "self._cell": (L("p", "-"), C)}, {}),
     (CELLS, "TrimmedCell._run", {}, {"relative_axes": (L("*", "+"), L("t", "-"))}),
     (CELLS, "TrimmedCell._extract", {}, {}),
     (CELLS, "ShortestPairs._transform_cell_basis", {"self._supercell_bases": (L("s", "-"), C), "self._supercell_pos": (A, L("s", "+")), "self._primitive_pos": (A, L("s", "+"))}, {}),
@@ -259,5 +265,7 @@ def selftest():
     b("unimodularity assertion dropped", CELLS, "            assert determinant(P_inv) == 1\n", "", "R04c", "determinant")
     b("atom-count gate rounds on the coarse side", CELLS, "        scale = 1.0 / np.linalg.det(relative_axes)\n        if len(cell) == int(np.rint(scale * len(trimmed_symbols))):", "        num_trimmed = int(np.rint(len(cell) * np.linalg.det(relative_axes)))\n        if len(trimmed_symbols) == num_trimmed:", "R04d", "TrimmedCell._run")
     n("atom-count gate without a temporary", CELLS, "        scale = 1.0 / np.linalg.det(relative_axes)\n        if len(cell) == int(np.rint(scale * len(trimmed_symbols))):", "        if len(cell) == int(np.rint(len(trimmed_symbols) / np.linalg.det(relative_axes))):")
+    b("shortest vectors converted with inv(primitive matrix) untransposed", CELLS, "        trans_mat_float = np.dot(supercell_bases, np.linalg.inv(primitive_bases))", "        trans_mat_float = np.linalg.inv(self._primitive_matrix)", "R04a", "_get_smallest_vectors")
+    n("shortest vectors converted with inv(primitive matrix) transposed", CELLS, "        trans_mat_float = np.dot(supercell_bases, np.linalg.inv(primitive_bases))", "        trans_mat_float = np.linalg.inv(self._primitive_matrix).T")
     n("dot written as matmul", CELLS, "            cart_diffs = np.dot(frac_diffs, self.cell)", "            cart_diffs = frac_diffs @ self.cell")
     return V
